@@ -138,8 +138,69 @@ def run_heap_family(prop, tier, seed, configs, scratch, assumptions, level_note)
             pass
         if violations:
             break
+    if not violations and prop in TRACE_PROPS and not os.environ.get("VERIF_MEASURE"):
+        run_trace_validation(prop, tier, seed, scratch, cov, violations, TRACE_PROPS[prop])
     return cov, violations
 
+
+def run_trace_validation(prop, tier, seed, scratch, cov, violations, derived_modes=(0,)):
+    """R3: random programs on the real library (large containers) validated by TLC against Heap.tla (spec/HeapTrace.tla)."""
+    vh = build_harness(scratch)
+    q = tier == "quick"
+    for dv in derived_modes:
+        trace = scratch.path("heap-trace-%d.ndjson" % dv)
+        summ = scratch.path("heap-trace-%d.json" % dv)
+        args = ["drive", "-trace", trace, "-seed", str(seed), "-programs", "30" if q else "400", "-steps", "100" if q else "150",
+                "-bigprograms", "6" if q else "40", "-bigsteps", "40" if q else "60", "-nkeys", "4", "-derived", str(dv), "-out", summ]
+        rc, so, se, wall = run_vh(vh, args, 1800)
+        s = json.load(open(summ))
+        mod = "---- MODULE MC ----\nEXTENDS HeapTrace\nmcLits == <<>>\n====\n"
+        cfg = ('CONSTANTS\n NKeys = 4\n Lits <- mcLits\n TraceFile = "%s"\nSPECIFICATION TraceSpec\nINVARIANT TraceInv\nCONSTRAINT Mark\n'
+               'POSTCONDITION TraceAccepted\nCHECK_DEADLOCK FALSE\n' % trace)
+        res = run_tlc(scratch, "%s-trace-%d" % (prop, dv), mod, cfg, ["Heap.tla", "HeapTrace.tla"], 1800, workers=1, heap="8g")
+        cov["states"] += res.get("states", 0)
+        cov["transitions"] += res.get("transitions", 0)
+        entry = dict(name="%s-trace-derived%d" % (prop, dv), programs=s["programs"], events=s["events"], max_container_sizes=s["max_container_sizes"][-5:],
+                     alien_values=s["alien_values"], tlc_wall_s=round(res["wall_s"], 1), accepted=bool(res["ok"]))
+        cov.setdefault("trace_validation", []).append(entry)
+        internal = [x for x in ("StackOverflowError", "OutOfMemoryError", "Parsing or semantic analysis failed", "java.lang.") if x in res["tail"]]
+        if not res["ok"] and (internal or "TraceAccepted" not in res["tail"]):
+            raise Inconclusive("TLC failed on the recorded trace for a reason other than rejecting it (%s):\n%s" % (internal, res["tail"][:3000]))
+        if res["ok"]:
+            cov["traces_validated_against_impl"] += s["programs"]
+            cov["evaluations"] += s["events"]
+            log("[trace] %s derived=%d: %d programs, %d events (largest containers %s) accepted by TLC in %.1fs"
+                % (prop, dv, s["programs"], s["events"], s["max_container_sizes"][-3:], res["wall_s"]))
+        else:
+            # locate the first unexplained event: the high-water mark is the number of states TLC generated
+            first = res.get("states", 0)
+            lines = open(trace).read().split("\n")
+            bad = lines[first - 1] if 0 < first <= len(lines) else ""
+            # the program the event belongs to
+            start = first - 1
+            while start > 0 and '"reset"' not in lines[start]:
+                start -= 1
+            os.makedirs(REPLAYS, exist_ok=True)
+            keep = os.path.join(REPLAYS, "%s-trace-d%d-%d.ndjson" % (prop, dv, seed))
+            with open(keep, "w") as f:
+                f.write("\n".join(lines[start:first]) + "\n")
+            try:
+                o = json.loads(bad).get("o")
+            except Exception:
+                o = None
+            violations.append(dict(property=prop, check="trace", config="trace-derived%d" % dv, sig="trace: op=%s rejected by HeapTrace.tla" % (o[0] if o else "?"),
+                                   message="event %d of the recorded execution is not a step Heap.tla allows (operation %s, derived=%d); the program up to and including "
+                                           "this event is in %s; TLC: %s" % (first, json.dumps(o), dv, keep, res["tail"][-600:].replace("\n", " ")),
+                                   steps_file=keep))
+            log("[trace] %s derived=%d: REJECTED at event %d: %s" % (prop, dv, first, bad[:300]))
+        for fpath in (trace,):
+            try:
+                os.remove(fpath)
+            except OSError:
+                pass
+
+
+TRACE_PROPS = {"C05": (0,), "C06": (0,), "C08": (0,), "C09": (0,), "C11": (0,), "C19": (1, 2)}
 
 # ---------------------------------------------------------------------------------------------
 # Config tables.  Sizes are fitted to measured state counts (see DESIGN.md section 5.0).
